@@ -233,10 +233,53 @@ def decode_cases(flat, n):
 
 
 def random_bond_case(rng):
-    kind = rng.choice(["random", "random", "random", "pairwise", "nn", "shared-tail", "dup"])
+    kind = rng.choice(["random", "random", "random", "pairwise", "nn", "shared-tail", "dup",
+                       "product", "product", "unit", "outer"])
     n = rng.randint(2, 6)
     terms = []
     coef = lambda: rng.choice([0.25, 0.5, 1.0, 1.5, 2.0, 3.0])
+    if kind == "product":
+        # NON-GENERIC coefficients: an expanded product of sums, e.g. (X0+Z0)(X1+Z1) as four unit terms.
+        # The coefficient matrix of every cut has numerical rank 1 per factor, the incidence matrix a complete block.
+        nfac = rng.randint(1, 2)
+        for _ in range(nfac):
+            per_site = []
+            for i in range(n):
+                if rng.random() < 0.6:
+                    k = rng.randint(2, 3)
+                    per_site.append([(sy, rng.choice([1.0, 1.0, 1.0, 0.5, 2.0])) for sy in rng.sample(range(0, NSYM), k)])
+                else:
+                    per_site.append([(rng.randint(0, NSYM - 1), 1.0)])
+            combos = list(itertools.product(*per_site))
+            if len(combos) > 16:
+                combos = combos[:16] if rng.random() < 0.5 else rng.sample(combos, 16)
+            pref = rng.choice([1.0, 1.0, 2.0])
+            for combo in combos:
+                c = pref
+                for _, w in combo:
+                    c *= w
+                terms.append([[sy for sy, _ in combo], c])
+        return {"n": n, "terms": terms, "kind": kind}
+    if kind == "unit":                  # random strings, all coefficients equal
+        alpha = [0] + rng.sample(range(1, NSYM), rng.randint(1, 3))
+        c = rng.choice([1.0, 1.0, 0.5])
+        for _ in range(rng.randint(2, 14)):
+            terms.append([[rng.choice(alpha) for _ in range(n)], c])
+        return {"n": n, "terms": terms, "kind": kind}
+    if kind == "outer":                 # sum_ij a_i b_j L_i R_j : proportional rows / columns across one cut
+        n = rng.randint(2, 6)
+        k = rng.randint(1, n - 1)
+        Ls = list({tuple(rng.randint(0, NSYM - 1) for _ in range(k)) for _ in range(rng.randint(2, 4))})
+        Rs = list({tuple(rng.randint(0, NSYM - 1) for _ in range(n - k)) for _ in range(rng.randint(2, 4))})
+        a = [rng.choice([0.5, 1.0, 2.0]) for _ in Ls]
+        b = [rng.choice([0.5, 1.0, 2.0]) for _ in Rs]
+        for i, L in enumerate(Ls):
+            for j, R in enumerate(Rs):
+                if rng.random() < 0.9:
+                    terms.append([list(L) + list(R), a[i] * b[j]])
+        if not terms:
+            terms.append([list(Ls[0]) + list(Rs[0]), 1.0])
+        return {"n": n, "terms": terms, "kind": kind}
     if kind in ("random", "dup"):
         k = rng.randint(1, 4)
         alpha = [0] + rng.sample(range(1, NSYM), k)
@@ -590,7 +633,7 @@ def run(ctx):
                     hist["numpy_rows"] += 1
                 if any(len(set(adj)) != len(adj) for adj in g):
                     hist["multigraph"] += 1
-        if not inj and c["src"].startswith("random") and len(samples) < 2 and E >= 4 and r["hk"].get("ok"):
+        if not inj and c["src"].startswith("random") and len(samples) < 2 and E >= 4 and r["hk"].get("ok") and r.get("hu", {}).get("ok"):
             samples.append({"graph": g, "scipy_matching": r["hk"].get("match"), "impl_cover_hk": [r["hk"]["cu"], r["hk"]["cv"]],
                             "impl_cover_hungarian": [r["hu"]["cu"], r["hu"]["cv"]], "model": mres, "brute_force_min": r.get("min")})
 
@@ -604,7 +647,7 @@ def run(ctx):
     if berr is not None:
         flag("harness-impl", {"what": "bond runner failed", "out": berr})
     bond_stats = {"operators": 0, "cuts": 0, "cuts_where_cover_beats_both_sides": 0, "max_bond": 0,
-                  "decimal_operators": n_dec,
+                  "decimal_operators": n_dec, "by_kind": {},
                   "strings_cancelling_exactly": sum(c.get("exact_cancellations", 0) for c in bcases),
                   "of_which_nonzero_in_binary64": sum(c.get("float_inexact_cancellations", 0) for c in bcases)}
     bond_bad = []
@@ -616,9 +659,12 @@ def run(ctx):
                 bd = r["bd"].get(algo)
                 ok = bd == r["exp"] and all(b <= min(l, rr) for b, l, rr in zip(bd or [], r["nL"], r["nR"]))
                 de = r["dense_err"].get(algo)
-                if not ok or algo in r["err"] or (de is not None and de > 1e-9):
-                    bond_bad.append({"case": {"n": c["n"], "terms": c["terms"]}, "algo": algo, "bond_dims": bd, "expected_min_cover": r["exp"],
-                                     "nL": r["nL"], "nR": r["nR"], "dense_rel_err": de, "error": r["err"].get(algo)})
+                disp = r.get("dispatch_ok", {}).get(algo, True)
+                if not ok or not disp or algo in r["err"] or (de is not None and de > 1e-9):
+                    bond_bad.append({"case": {"n": c["n"], "terms": c["terms"]}, "kind": c.get("kind"), "algo": algo, "bond_dims": bd, "expected_min_cover": r["exp"],
+                                     "nL": r["nL"], "nR": r["nR"], "dense_rel_err": de, "error": r["err"].get(algo),
+                                     "cover_routine_called_with": r.get("cover_calls", {}).get(algo), "dispatch_ok": disp})
+                bond_stats["by_kind"][c.get("kind", "?")] = bond_stats["by_kind"].get(c.get("kind", "?"), 0) + 1
             bond_stats["cuts"] += len(r["exp"]) - 2
             bond_stats["cuts_where_cover_beats_both_sides"] += sum(1 for e, l, rr in zip(r["exp"], r["nL"], r["nR"]) if e < min(l, rr))
             bond_stats["max_bond"] = max(bond_stats["max_bond"], max(r["exp"]))
@@ -675,11 +721,13 @@ def run(ctx):
     if bond_bad:
         src = open(os.path.join(common.VERIF, "harness", "impl", "c20_bond.py")).read()
         src = src[:src.rindex("main()")]
-        b0 = bond_bad[0]
+        differing = [b for b in bond_bad if b["bond_dims"] is not None and b["bond_dims"] != b["expected_min_cover"]]
+        b0 = (differing or bond_bad)[0]     # prefer a replay whose bond dimensions themselves are wrong
         repro = src + "\nr = run_case(%r, %r)\nprint(r)\nbd = r['bd'].get(%r)\n" % (b0["case"], [b0["algo"]], b0["algo"]) + \
-            "de = r['dense_err'].get(%r)\nsys.exit(1 if (bd != r['exp'] or r['err'] or (de is not None and de > 1e-9)) else 0)\n" % (b0["algo"],)
-        ctx.violation("bond-dims", "oracle: Mpo(...).bond_dims differs from the brute-force minimum cover of the (exactly merged) term-incidence matrix at some cut (or exceeds the number of distinct left/right parts, or the dense operator is wrong)",
-                      {"count": len(bond_bad), "first": bond_bad[:3]}, found=True, repro=repro)
+            "de = r['dense_err'].get(%r)\nsys.exit(1 if (bd != r['exp'] or r['err'] or not r['dispatch_ok'].get(%r, True) or (de is not None and de > 1e-9)) else 0)\n" % (b0["algo"], b0["algo"])
+        ctx.violation("bond-dims", "oracle: Mpo(...).bond_dims differs from the brute-force minimum cover of the (exactly merged) term-incidence matrix at some cut (EQUALITY is required, also for non-generic coefficients; or it exceeds the number of distinct left/right parts, or the dense operator is wrong, or symbolic_mpo did not call bipartite_vertex_cover with the requested algorithm at every site)",
+                      {"count": len(bond_bad), "bond_dims_differ": len(differing), "dispatch_failures": sum(1 for b in bond_bad if not b["dispatch_ok"]),
+                       "replayed": b0, "first": bond_bad[:3]}, found=True, repro=repro)
 
     ctx.notes.append("witness validity: %d SciPy matchings checked by valid_matching, failures: %d" % (witness_checked, len(bad.get("witness-invalid", []))))
     ctx.notes.append("scale probe (chains %s): RecursionError on the Hungarian path for %s; reported under key hungarian-recursion-limit" % (sizes, [r["n"] for r in recursion_hit]))
